@@ -204,6 +204,38 @@ def run(ctx):
     for var in ("EventPropertyIs", "EventPropertyContains"):
         good = good and bool(by.get(var)) and "False" in by.get(var) or (good and bool(by.get(var)))
     ctx.check(bool(good), "C12.conditions", "C12.conditions:dispatch", w.where(f), bad_msg=f"{ {k: sorted(v)[:2] for k, v in by.items()} }")
+    # event_property_is / event_property_contains: an absent property never matches (in particular not a `null` value), a present one is
+    # compared as a whole value / looked up in the array
+    for var in ("EventPropertyIs", "EventPropertyContains"):
+        GET = f"FlattenedJson::get(event, self.{var}.key)"
+        VAL = f"self.{var}.value"
+        bad_p = []
+        n_var = 0
+        for p in ps:
+            if p.kind != "ret" or not any(a[0] == "variant" and t and D.show(a[1]) == "self" and a[2] == var for a, t in p.conds):
+                continue
+            if any(a[0] == "eq" and t and "ctx.user_id" in D.show_atom(a) for a, t in p.conds):
+                continue
+            n_var += 1
+            tv = U.true_variants(p)
+            r = D.show(p.ret).replace(" ", "")
+            if tv.get(GET) == "None":
+                ok_ = r == "False"
+            elif var == "EventPropertyIs":
+                A, B = f"{GET}.Some.0".replace(" ", ""), VAL
+                ok_ = tv.get(GET) == "Some" and r in (f"{A}=={B}", f"{B}=={A}", f"PartialEq::eq({A},{B})", f"PartialEq::eq({B},{A})")
+                ok_ = ok_ or (GET not in tv and r in (f"{GET}==Option::Some({B})".replace(" ", ""), f"Option::Some({B})=={GET}".replace(" ", "")))
+            else:
+                arr = [s_ for s_, v_ in tv.items() if "as_array" in s_ and GET in s_]
+                if tv.get(GET) == "Some" and arr and tv[arr[0]] == "None":
+                    ok_ = r == "False"
+                else:
+                    ok_ = tv.get(GET) == "Some" and bool(arr) and tv[arr[0]] == "Some" and re.fullmatch(r"(?:\w+::)*contains\(" + re.escape(arr[0].replace(" ", "")) + r"\.Some\.0," + re.escape(VAL) + r"\)", r) is not None
+            if not ok_:
+                bad_p.append((r[:140], sorted((k[-60:], v_) for k, v_ in tv.items() if "self." + var in k)))
+        ctx.floor(f"paths of PushCondition::applies for {var}", n_var, 2)
+        ctx.check(not bad_p, "C12.conditions", f"C12.conditions:{var}:absent-never-matches", w.where(f),
+                  bad_msg=f"{var}: an absent property must give false and a present one must be compared with the condition's value; got {bad_p[:2]}")
     adt = w.adts[PU + "condition::PushCondition"]
     ctx.check(set(by) - {"own", "?"} == {v["name"] for v in adt["variants"]}, "C12.conditions", "C12.conditions:all-variants", w.where(f),
               bad_msg=f"variants without a decided outcome: { {v['name'] for v in adt['variants']} - set(by) }")
